@@ -19,7 +19,8 @@ ID = "C19"
 RULE = ("Cells (model kind in 4) x (metric in 47) x (on-the-fly | pre-computed matrix): fit on generated data of the metric's domain, snapshot S0 and "
         "predictions P0, save(file); the original's snapshot must still equal S0; load(file) into a freshly constructed model (default arguments) "
         "in-process and, for a sample of cases, in a FRESH interpreter: snapshot == S0, predictions on fresh queries == original's, distance "
-        "option, metric behaviour on probe vectors, pre-computed matrix bytes, best_k and density range equal. Non-trivial: every case that fits; "
+        "option, metric behaviour on probe vectors, pre-computed matrix bytes (symmetric and asymmetric matrices), best_k and density range equal; then a "
+        "second, different model of identical shape is saved to the SAME path and loaded again (stale-load history). Non-trivial: every case that fits; "
         "distinct = case hash; cells = kind x metric x mode.")
 ASSUMPTIONS = [
     "a fit that raises is counted 'aborted' and skipped (nothing to save)",
@@ -29,7 +30,7 @@ BUDGET = {
     "quick": {"cases": 1200, "seconds": 60, "shards": 8},
     "thorough": {"cases": 16000, "seconds": 540, "shards": 16},
 }
-REQUIRED_OBS = ["loaded_snapshot_compared", "loaded_predictions_compared", "original_unaltered_checked", "fresh_interpreter_loads",
+REQUIRED_OBS = ["loaded_snapshot_compared", "loaded_predictions_compared", "original_unaltered_checked", "fresh_interpreter_loads", "same_path_resave_checked", "asymmetric_matrix_cases",
                 "mode:pre", "mode:fly", "kind:supervised", "kind:semi", "kind:knn", "kind:unsup"]
 MIN_NONTRIVIAL = 100
 KINDS = ["supervised", "semi", "knn", "unsup"]
@@ -66,7 +67,7 @@ def generate(rng, tier, idx):
             N = n + 4
             I = rng.permutation(N)[:n]
             IV = None
-        D = gen.make_matrix(rng, N, gen.pick(rng, ["M1", "M2", "M3"]))
+        D = gen.make_matrix(rng, N, gen.pick(rng, ["M1", "M2", "M3", "MA", "MA"]))
         case["pre"] = {"D": D.tolist(), "I": [int(i) for i in I], "IV": None if IV is None else [int(i) for i in IV],
                        "IQ": [int(i) for i in rng.integers(0, N, size=len(Q))]}
     return case
@@ -162,8 +163,36 @@ def check(case):
             if _plain(p0.value) != _plain(p2.value):
                 res.violate("load", "C19/loaded-predictions-differ", f"{kind}/{name}: original predicts {_plain(p0.value)}, loaded model {_plain(p2.value)}")
                 return res
+        # ---- history: a DIFFERENT model of identical shape (training rows reversed) saved to the SAME path, loaded again
+        case_b = dict(case)
+        case_b["X"], case_b["Y"] = case["X"][::-1], case["Y"][::-1]
+        if case["pre"]:
+            case_b["pre"] = {**case["pre"], "I": case["pre"]["I"][::-1]}
+        mb = build_model(kind, name, pre=pre_file, max_k=case["max_k"], min_k=case["min_k"])
+        fb = _fit(case_b, mb)
+        if fb.ok:
+            pb = _predict(case_b, mb)
+            Sb = forest_snapshot(mb)
+            sb = safe_call(mb.save, pkl)
+            m3 = build_model(kind)
+            l3 = safe_call(m3.load, pkl) if sb.ok else sb
+            if not l3.ok:
+                res.violate("load", f"C19/exception/load/{type(l3.exc).__name__}", f"{kind}/{name}: second save/load at the same path raised at {l3.where}")
+                return res
+            res.see("same_path_resave_checked")
+            d = snapshot_diff(forest_snapshot(m3), Sb)
+            if d:
+                stale = snapshot_diff(forest_snapshot(m3), S0) is None
+                res.violate("load", "C19/loaded-forest-differs/second-save-same-path",
+                            f"{kind}/{name}: a second model saved to the same path and loaded into a fresh model differs from it: {d}" + (" (it equals the model saved there BEFORE: stale load)" if stale else ""))
+                return res
+            p3 = _predict(case_b, m3)
+            if pb.ok and p3.ok and _plain(pb.value) != _plain(p3.value):
+                res.violate("load", "C19/loaded-predictions-differ", f"{kind}/{name}: after re-saving at the same path, loaded predictions {_plain(p3.value)} != {_plain(pb.value)}")
+                return res
         if case.get("fresh"):
             qf, out = os.path.join(tmp, "q.json"), os.path.join(tmp, "out.json")
+            safe_call(m.save, pkl)
             json.dump({"Q": case["Q"], "IQ": case["pre"]["IQ"] if case["pre"] else None}, open(qf, "w"))
             env = dict(os.environ)
             try:
@@ -193,6 +222,8 @@ def check(case):
             elif pr is not None:
                 res.see("fresh_interpreter_failed_to_run")
                 res.note = (pr.stdout + pr.stderr)[-500:]
+        if case["pre"] and not np.array_equal(np.array(case["pre"]["D"]), np.array(case["pre"]["D"]).T):
+            res.see("asymmetric_matrix_cases")
         res.see("mode:" + ("pre" if case["pre"] else "fly"))
         res.see("kind:" + kind)
         res.nontrivial = True
